@@ -16,7 +16,15 @@ import (
 // Rng is splitmix64; every random choice of a run derives from one state.
 type Rng struct{ s uint64 }
 
-func NewRng(seed uint64) *Rng { return &Rng{s: seed*0x9E3779B97F4A7C15 + 0x1234567} }
+// NewRng scrambles the seed first: with a plain affine start, consecutive seeds would
+// yield the same splitmix stream shifted by one position.
+func NewRng(seed uint64) *Rng {
+	z := seed + 0xD1B54A32D192ED03
+	z = (z ^ (z >> 30)) * 0xBF58476D1CE4E5B9
+	z = (z ^ (z >> 27)) * 0x94D049BB133111EB
+	z = z ^ (z >> 31)
+	return &Rng{s: z*0x9E3779B97F4A7C15 + 0x1234567}
+}
 func (r *Rng) U64() uint64 {
 	r.s += 0x9E3779B97F4A7C15
 	z := r.s
